@@ -243,7 +243,8 @@ def op_float(rng, tc):
     L = tc.sequence_length
     j = rng.randrange(len(a))
     cur = a[j]
-    v = rng.choice([NAN, INF, -INF, -1.0, -0.0, 0.0, L, L + 1, math.nextafter(L, 0), 1e308, -1e308, 5e-324,
+    v = rng.choice([NAN, INF, -INF, -1.0, -0.0, 0.0, L, L + 1, math.nextafter(L, 0), math.nextafter(L, INF), 1e308, -1e308,
+                    5e-324, -5e-324,
                     math.nextafter(cur, INF) if np.isfinite(cur) else 0.0, math.nextafter(cur, -INF) if np.isfinite(cur) else 0.0])
     setcol(tc, table, col, j, v)
     return f"float:{table}.{col}"
@@ -366,7 +367,23 @@ def op_mut_time(rng, tc):
     k = rng.randrange(mu.num_rows)
     u = int(mu.node[k])
     tn = tc.nodes.time[u]
-    mode = rng.choice(["unknown", "node-time", "below-node", "far-above", "parent-mut+", "all-unknown", "all-node-time"])
+    mode = rng.choice(["unknown", "node-time", "below-node", "far-above", "parent-mut+", "all-unknown", "all-node-time",
+                       "parent-node-time", "parent-node-time", "just-below-parent-node"])
+    if mode in ("parent-node-time", "just-below-parent-node"):
+        # the boundary of "younger than the parent of the node in the tree at the site": equal is invalid,
+        # the next double below is valid
+        pos = tc.sites.position[int(mu.site[k])] if 0 <= int(mu.site[k]) < tc.sites.num_rows else None
+        e = tc.edges
+        par = [int(e.parent[j]) for j in range(e.num_rows) if pos is not None and int(e.child[j]) == u and e.left[j] <= pos < e.right[j]]
+        if not par or not (0 <= par[0] < tc.nodes.num_rows):
+            return None
+        tp = tc.nodes.time[par[0]]
+        # make the whole site 'known' so that the only thing wrong is this bound
+        sk = [j for j in range(mu.num_rows) if mu.site[j] == mu.site[k]]
+        if len(sk) != 1:
+            return None
+        setcol(tc, "mutations", "time", k, tp if mode == "parent-node-time" else math.nextafter(tp, -INF))
+        return f"mut-time:{mode}"
     if mode == "unknown":
         setcol(tc, "mutations", "time", k, tskit.UNKNOWN_TIME)
     elif mode == "node-time":
